@@ -33,7 +33,11 @@ def adversarial_profile(rng):
     names = list(fam)
     rng.shuffle(names)
     # function names double as device-name strings (substitution must not reach into strings)
-    return Profile(fn_names=names, name_strings=[names[0], names[-1], "Some Name"], max_stmts=4, const_lists=False)
+    # strings that look like comments / labels / several tokens are compared against as HASH("...") literals:
+    # the label passes work on the text of a line and must not be misled by what stands inside a string
+    tricky = ["Pump #1", "a # b", "#", names[0] + ":", "x # " + names[-1], "lbelse1 lbend1", "j " + names[0]]
+    return Profile(fn_names=names, name_strings=[names[0], names[-1], "Some Name", "Pump #1"], hash_names=tricky,
+                   max_stmts=4, const_lists=False)
 
 
 def static_labels(code):
